@@ -1105,7 +1105,8 @@ impl Formatter {
             Pattern::Constructor(name, patterns) => {
                 // Qualified patterns are stored as "Type::Variant"; the source spelling is `Type.Variant`.
                 self.writer.write(&name.replace("::", "."));
-                if !patterns.is_empty() {
+                // An unqualified name without parentheses is a binding pattern, so `Foo()` must keep them.
+                if !patterns.is_empty() || !name.contains("::") {
                     self.writer.write("(");
                     for (i, p) in patterns.iter().enumerate() {
                         if i > 0 {
